@@ -273,6 +273,11 @@ def read_lines(p):
         return f.read().split("\n")[:-1] if os.path.getsize(p) else []
 
 
+def _short(x, n=400):
+    """evidence files stay small: long op lines (megabyte payloads) are abbreviated"""
+    return x if len(x) <= n else x[:n] + "...[%d chars]" % len(x)
+
+
 def segments(ops):
     """Split an op list into cases: runs between `reset` lines; if there is no reset, every line is a case."""
     if not any(l.startswith("reset") for l in ops):
@@ -432,7 +437,7 @@ def _check(pid, tier, seed, reg, cfg, workdir, t0):
             if any(o not in trivial for k, o in enumerate(outs) if not ops[s + k].startswith("reset")):
                 nontrivial += 1
                 if len(samples) < 4 and (e - s) <= 40:
-                    samples.append({"ops": ops[s:e], "impl_out": outs})
+                    samples.append({"ops": [_short(x) for x in ops[s:e]], "impl_out": [_short(x) for x in outs]})
         for f in res["oracle"].get("fails") or []:
             oracle_fails.append((res, f))
 
@@ -554,7 +559,7 @@ def _check(pid, tier, seed, reg, cfg, workdir, t0):
             "samples": samples or [{"note": "no correspondence samples in this run"}],
             "correspondence": dict(totals, distinct_cases=len(seen_cases), stats=stats),
             "known_findings_hit": sorted(known_hits.keys()),
-            "proof_problems": proof_problems, "correspondence_problems": [c["what"] for c in corr_problems][:10],
+            "proof_problems": [_short(x, 2000) for x in proof_problems], "correspondence_problems": [_short(c["what"], 2000) for c in corr_problems][:10],
         },
         "assumptions": reg["assumptions"],
         "wall_s": round(time.time() - t0, 2),
